@@ -700,9 +700,16 @@ Mutual ==
         /\ Listed(a, b) <=> Listed(b, a)
         /\ Listed(a, b) => active[a][b].gid = active[b][a].gid
 
+(* every connection handler still alive belongs to the stored connection: the handler of a   *)
+(* connection that lost a tie-break or was replaced has ended (the connection was closed, not *)
+(* merely forgotten)                                                                          *)
+NoOrphanHandlers(n) ==
+  phase[n] = "running" => handlers[n] = {active[n][p].gid : p \in DOMAIN active[n]}
+
 TrQuiesce ==
   /\ IsEvent("obs.quiesce")
   /\ Mutual
+  /\ \A n \in DOMAIN phase : NoOrphanHandlers(n)
   /\ \A n \in DOMAIN phase : phase[n] = "running" =>
         \A p \in DOMAIN active[n] : p \in DOMAIN phase => phase[p] = "running"
   /\ quietLen' = [n \in DOMAIN evlog |-> Len(evlog[n])]
@@ -717,7 +724,10 @@ TrConverged ==
   /\ LET a == Cur.a  b == Cur.b  hi == Max2(a, b) IN
      /\ b \in DOMAIN active[a] /\ a \in DOMAIN active[b]
      /\ active[a][b].gid = active[b][a].gid
-     /\ conns[active[a][b].gid].d = hi
+     \* which one survives is decided by the tie-break alone - unless a connection limit let the
+     \* admission rule (C10) refuse the later arrival before it came to a tie-break
+     /\ (cfg[a].limit = NoLimit /\ cfg[b].limit = NoLimit) => conns[active[a][b].gid].d = hi
+     /\ NoOrphanHandlers(a) /\ NoOrphanHandlers(b)       \* "... and drop the other"
   /\ UNCHANGED <<vars, pendEv, conns, tasks, spawnQ, nextTick, phase, subs, subPos, addrNode,
                  lastAdd, replies, closeT, faultT, idle, ka, runStart, lastSend, quietLen,
                  callListed, pathOut, pathIn, closingH, beginT, shutIdle>>
